@@ -993,8 +993,11 @@ class HistogramBase(abc.ABC):
                 self._coerce_dtype(array.dtype)
             except ValueError as v:
                 raise TypeError(str(v)) from v
+            # The square is taken of the python number, before anything is changed:
+            # a narrow numpy integer would wrap around, a huge float raises here.
+            scalar2 = (other.item() if isinstance(other, np.generic) else other) ** 2
             self.frequencies = self.frequencies * scalar
-            self.errors2 = self.errors2 * scalar**2
+            self.errors2 = self.errors2 * scalar2
             self._missed = self._missed * scalar
             if hasattr(self, "_stats"):
                 self._stats = self._stats * scalar
@@ -1024,9 +1027,10 @@ class HistogramBase(abc.ABC):
         elif np.isscalar(other):
             if other == 0:
                 raise ZeroDivisionError("Cannot divide a histogram by zero.")
+            other2 = (other.item() if isinstance(other, np.generic) else other) ** 2
             self._coerce_dtype(np.float64)
             self.frequencies = self.frequencies / other
-            self.errors2 = self.errors2 / other**2
+            self.errors2 = self.errors2 / other2
             self._missed /= other
             if hasattr(self, "_stats"):
                 self._stats *= 1 / other
